@@ -441,7 +441,7 @@ class Unit:
             replaced = [n for n in replaced if n in spec.replace]
         parts = []
         parts.append('#include "verif_prelude.h"\n')
-        parts.append("int __verif_exc;\nunsigned long verif_atomic_ops;\nunsigned long verif_gi, verif_gj, verif_hi, verif_hj;\n")
+        parts.append("int __verif_exc;\nunsigned long verif_atomic_ops;\nunsigned long verif_gi, verif_gj, verif_hi, verif_hj, verif_mm;\n")
         parts.append(self.nondet_decls())
         # records/globals are global to the translator: emit all that exist (cheap)
         body_parts = []
@@ -537,7 +537,7 @@ class Unit:
                 raise ExtractionBreak("function %s has %d loop(s) but no loop contract" % (target, f.loops))
         has_loops = ((not is_lemma) and (bool(spec.loops) or bool(spec.extra.get("apply_loops")))) or has_inlined_loops
         return dict(unit=self.name, target=key, fname=target, cfile=cfile, harness=hname, enforce=None if is_lemma else target,
-                    replaced=replaced, loops=has_loops, unwind=(None if is_lemma else spec.extra.get("unwind")), linemap=linemap, inputs=inputs, spec=spec, is_lemma=is_lemma,
+                    replaced=replaced, loops=has_loops, loops_optional=((not is_lemma) and spec.extra.get("apply_loops") == "auto" and not spec.loops and not has_inlined_loops), unwind=(None if is_lemma else spec.extra.get("unwind")), linemap=linemap, inputs=inputs, spec=spec, is_lemma=is_lemma,
                     hstart=hstart, functions=order, text=text, rec=(not is_lemma and spec.rec))
 
     def lemma_harness(self, lem):
